@@ -120,6 +120,9 @@ pub struct ObjP {
     pub grp: bool,
     pub etag: bool,
     pub md5: bool,
+    /// Content-Location of this object = the location of object `loc` (an earlier version of the same file);
+    /// None = its own
+    pub loc: Option<usize>,
     // derived
     pub toi: Option<u128>,
     pub tl: Option<u64>,
@@ -146,6 +149,7 @@ impl Default for ObjP {
             etag: false,
             md5: true,
             toi: None,
+            loc: None,
             tl: None,
             pl: 0,
             pll: 0,
@@ -246,7 +250,7 @@ impl SessP {
         );
         for o in &self.objs {
             s += &format!(
-                " | o sz={} seed={} ck={} q={} m={} car={} cenc={} icenc={} oti={} src={} cc={} grp={} etag={} md5={}",
+                " | o sz={} seed={} ck={} q={} m={} car={} cenc={} icenc={} oti={} src={} cc={} grp={} etag={} md5={} loc={}",
                 o.sz,
                 o.seed,
                 o.ck,
@@ -260,7 +264,8 @@ impl SessP {
                 o.cc,
                 b(o.grp),
                 b(o.etag),
-                b(o.md5)
+                b(o.md5),
+                o.loc.map(|x| x.to_string()).unwrap_or("-".into())
             );
             if with_derived {
                 s += &format!(
@@ -340,6 +345,10 @@ impl SessP {
                 o.grp = pb(m.get("grp")?)?;
                 o.etag = pb(m.get("etag")?)?;
                 o.md5 = pb(m.get("md5")?)?;
+                o.loc = match m.get("loc") {
+                    None | Some(&"-") => None,
+                    Some(x) => Some(x.parse().ok()?),
+                };
                 o.toi = match m.get("toi") {
                     None | Some(&"-") => None,
                     Some(x) => Some(x.parse().ok()?),
